@@ -65,12 +65,13 @@ Proof. exact step_children_first. Qed.
 Print Assumptions C09_children_first.
 
 (* ---- exact payload ------------------------------------------------------------------------------------------------------------------------ *)
-(* every delivered event belongs to an observing node [m] of [affected]; it carries m's path and exactly [payload_spec st' ups m]: the
-   updates whose container is m or lies below m, each keyed by its path relative to m, in the order of the updates *)
+(* every delivered event belongs to an observing node [m] of [affected]; it carries m's path and exactly [payload_spec st' ups' m]: the
+   updates whose container is m or lies below m, each keyed by its path relative to m, in the order of the updates; [ups'] = the updates with
+   their old / new values as those objects are at delivery ([refresh]: a FieldUpdate holds them by reference) *)
 Theorem C09_payload_exact : forall q st o st' ups e, WFI st -> In (TN st' ups None) (step_trace q st o) ->
   In e (events_of (step_trace q st o)) ->
   exists m, In m (affected st' ups) /\ observes m = true /\
-            ev_id e = nid0 m /\ ev_path e = npth m /\ ev_payload e = payload_spec st' ups m.
+            ev_id e = nid0 m /\ ev_path e = npth m /\ ev_payload e = payload_spec st' (map (refresh st') ups) m.
 Proof. exact step_payload. Qed.
 Print Assumptions C09_payload_exact.
 Theorem C09_relative_path : forall m u pre rest k, npth m = pre -> u_path u = pre ++ rest ++ [k] -> rel_path m u = rest ++ [k].
